@@ -41,6 +41,7 @@ def shrink(mod, case, viol, runner, budget_s=20.0):
             return True
         return False
 
+    attempt.expired = lambda: time.monotonic() - t0 > budget_s
     changed = True
     rounds = 0
     while changed and time.monotonic() - t0 < budget_s and rounds < 6:
@@ -119,13 +120,14 @@ def _ddmin_list(get, make, attempt, allow_empty=True):
     changed = False
     items = list(get())
     n = 2
+    expired = getattr(attempt, "expired", lambda: False)
     while len(items) >= (1 if allow_empty else 2):
-        if not items:
+        if not items or expired():
             break
         chunk = max(1, len(items) // n)
         removed_any = False
         i = 0
-        while i < len(items):
+        while i < len(items) and not expired():
             keep = items[:i] + items[i + chunk:]
             if not keep and not allow_empty:
                 i += chunk
